@@ -8,8 +8,12 @@ cases = []
 for f in known["findings"]:
     if f["status"] == "fixed":
         cases.append(("revert-" + f["commit"], "-R:" + f["commit"], f["property"], f["what"][:110]))
+benign = []
 for d in sorted(glob.glob(os.path.join(VERIF, "seeded", "*", "meta.json"))):
     m = json.load(open(d))
+    if m["id"].startswith("benign"):
+        benign.append((m["id"], os.path.join(os.path.dirname(d), "patch.diff"), m["what_it_changes"][:110]))
+        continue
     cases.append((m["id"], os.path.join(os.path.dirname(d), "patch.diff"), m["property"], m["what_it_breaks"][:110]))
 want = set(sys.argv[1:])
 rows = []
@@ -24,10 +28,25 @@ for cid, patch, prop, what in cases:
     ex = int(m.group(1)) if m else -1
     rows.append((cid, prop, ex, sigs[:3], what))
     print("%-16s %s exit=%d %s (%.0fs)" % (cid, prop, ex, ",".join(sigs[:2]), time.time() - t0), flush=True)
+brows = []
+for cid, patch, what in benign:
+    if want and cid not in want:
+        continue
+    worst = 0
+    for prop, runs in (("C19", "1500"), ("C20", "1500"), ("C21", "1500"), ("C22", "1500"), ("C23", "150")):
+        p = subprocess.run([sys.executable, os.path.join(VERIF, "tools", "mutant.py"), "--runs", runs, patch, prop], stdout=subprocess.PIPE, stderr=subprocess.STDOUT, text=True)
+        m = re.search(r"\[%s\] exit=(\d+)" % prop, p.stdout)
+        worst = max(worst, int(m.group(1)) if m else 9)
+    brows.append((cid, worst, what))
+    print("%-16s all five checks: worst exit=%d (expected 0)" % (cid, worst), flush=True)
 with open(os.path.join(VERIF, "seeded", "REPORT.md"), "w") as f:
     f.write("# Sensitivity report (written by tools/sensitivity.py)\n\nEach change is applied to a scratch worktree of /repo; the quick-tier generator of the property's check is run\n(2000 runs, C23: 300 histories) against it. exit 1 = caught.\n\n| change | property | check exit | first signatures | what it breaks |\n|---|---|---|---|---|\n")
     for cid, prop, ex, sigs, what in rows:
         f.write("| %s | %s | %d | %s | %s |\n" % (cid, prop, ex, "<br>".join(sigs), what.replace("|", "/")))
-missed = [r[0] for r in rows if r[2] != 1]
+with open(os.path.join(VERIF, "seeded", "REPORT.md"), "a") as f:
+    f.write("\n## Property-preserving refactors (no check may raise an alarm)\n\n| change | worst exit over C19..C23 | what it changes |\n|---|---|---|\n")
+    for cid, worst, what in brows:
+        f.write("| %s | %d | %s |\n" % (cid, worst, what.replace("|", "/")))
+missed = [r[0] for r in rows if r[2] != 1] + [b[0] + "(alarm)" for b in brows if b[1] != 0]
 print("caught %d of %d; missed: %s" % (len(rows) - len(missed), len(rows), missed))
 sys.exit(1 if missed else 0)
